@@ -6,6 +6,7 @@ pub mod c04;
 pub mod c05;
 pub mod c06;
 pub mod c06_e2e;
+pub mod c08;
 pub mod c11;
 pub mod c13;
 pub mod c15;
@@ -32,6 +33,7 @@ pub fn registry() -> Vec<(&'static str, CheckFn)> {
         ("C04", c04::run as CheckFn),
         ("C05", c05::run as CheckFn),
         ("C06", c06::run as CheckFn),
+        ("C08", c08::run as CheckFn),
         ("C11", c11::run as CheckFn),
         ("C13", c13::run as CheckFn),
         ("C15", c15::run as CheckFn),
